@@ -5,6 +5,6 @@ CONSTANTS
   Protocol = "atomic"
   SignalDeath = "failure"
   MkdirMode = "idempotent"
-  Failures = "all"
+  Failures = "cc"
 INVARIANT Emit
 CHECK_DEADLOCK FALSE
